@@ -101,7 +101,7 @@ def clean_scope_docstring(scope_node):
         # leaves anymore that might be part of the docstring. A
         # docstring can also look like this: ``'foo' 'bar'
         # Returns a literal cleaned version of the ``Token``.
-        return cleandoc(safe_literal_eval(node.value))
+        return _clean_doc_literal(node.value)
     return ''
 
 
@@ -113,8 +113,16 @@ def find_statement_documentation(tree_node):
             if maybe_string.type == 'simple_stmt':
                 maybe_string = maybe_string.children[0]
                 if maybe_string.type == 'string':
-                    return cleandoc(safe_literal_eval(maybe_string.value))
+                    return _clean_doc_literal(maybe_string.value)
     return ''
+
+
+def _clean_doc_literal(value):
+    doc = safe_literal_eval(value)
+    if not isinstance(doc, str):
+        # A bytes literal is not a docstring.
+        return ''
+    return cleandoc(doc)
 
 
 def safe_literal_eval(value):
